@@ -139,8 +139,8 @@ def o_region(IL, IR, r, c, shift, dist, inten):
 # ---------------------------------------------------------------- case generation
 
 
-def texture(rng, nr, nc, amp):
-    kind = rng.choice(["noise", "flat", "pieces", "ramp", "smooth"])
+def texture(rng, nr, nc, amp, kind=None):
+    kind = kind or rng.choice(["noise", "flat", "pieces", "ramp", "smooth"])
     if kind == "noise":
         a = [[rng.randrange(0, amp) for _ in range(nc)] for _ in range(nr)]
     elif kind == "flat":
@@ -217,6 +217,13 @@ def gen_case(rng, force=None):
                 method=method, window=win, subpix=sub, dmin=dmin, dmax=dmax, distance=dist,
                 intensity=[inten.numerator, inten.denominator],
                 kinds=dict(left=kl, right=kr, mask_left=kml, mask_right=kmr))
+    force = dict(force)
+    if force.pop("edgy_right", False):
+        # quarter-pixel planes on both sides of 0 and a right image with intensity edges of its own: the supports of the
+        # four shifted right images differ, so every plane depends on WHICH shifted image its arms are read in
+        case["right"], kr = texture(rng, nr, nc, 40, rng.choice(["pieces", "noise"]))
+        case["kinds"]["right"] = kr
+        case["intensity"] = [rng.choice([6, 10, 15]), 1]
     case.update(force)
     return case
 
@@ -746,6 +753,9 @@ def run(ctx):
                 force = {"distance": 6, "window": 1, "method": "sad"}
             elif i % 10 == 1:
                 force = {"distance": 1}
+            elif i % 10 == 3:
+                force = {"edgy_right": True, "subpix": 4, "dmin": rng.choice([-2, -1]), "dmax": rng.choice([0, 1]),
+                         "window": 1, "method": "sad", "distance": rng.choice([3, 4, 5])}
             elif i % 50 == 2:
                 # "every cbca_distance >= 1": far beyond the image, around the int16 / int32 limits
                 force = {"distance": rng.choice([300, 32767, 32768, 40000, 65536, 70000, 2 ** 31 - 1]),
